@@ -49,14 +49,14 @@ pub fn open(bytes: &[u8], reg: &KeyRegistry<KeyPair>) -> Result<Result<HybridRep
 struct Tally {
     panics: Vec<(String, String)>,
     accepted_different: Vec<String>,
-    accepted_same: u64,
+    accepted_same: Vec<String>,
     rejected: u64,
     cases: u64,
 }
 
 impl Tally {
     fn new() -> Self {
-        Self { panics: Vec::new(), accepted_different: Vec::new(), accepted_same: 0, rejected: 0, cases: 0 }
+        Self { panics: Vec::new(), accepted_different: Vec::new(), accepted_same: Vec::new(), rejected: 0, cases: 0 }
     }
     /// `must_fail`: the tampering changes a bit the report depends on
     fn judge(&mut self, what: impl Fn() -> String, class: &str, bytes: &[u8], reg: &KeyRegistry<KeyPair>, original: &HybridReport<BA8, BA3>) {
@@ -64,7 +64,7 @@ impl Tally {
         match open(bytes, reg) {
             Err(p) => self.panics.push((class.to_string(), format!("{}: {p}", what()))),
             Ok(Err(_)) => self.rejected += 1,
-            Ok(Ok(r)) if r == *original => self.accepted_same += 1,
+            Ok(Ok(r)) if r == *original => self.accepted_same.push(format!("{}: still decrypts (to the original report)", what())),
             Ok(Ok(r)) => self.accepted_different.push(format!("{}: decrypts to a different report {r:?}", what())),
         }
     }
@@ -181,8 +181,13 @@ pub fn run_reports(r: &mut Report) {
     r.add("evaluations", t.cases);
     r.add("distinct_nontrivial", t.cases);
     r.add("tamper_rejected", t.rejected);
-    r.add("tamper_harmless_same_report", t.accepted_same);
+    r.add("tamper_accepted_same_report", t.accepted_same.len() as u64);
     r.sample(json!({"subject":"conversion report, site meta.com","faults":"every bit of every byte, every truncation length, 256 event types, 256 key ids, wrong key"}));
+    // "changing any bit ... makes decryption fail": a tampered record that still decrypts - even to the
+    // original report - carries a bit nothing authenticates
+    if let Some(first) = t.accepted_same.first() {
+        r.violation("report:tamper-not-rejected", &format!("{first} ({} cases)", t.accepted_same.len()), json!({"part":"reports"}));
+    }
     if let Some(first) = t.accepted_different.first() {
         r.violation("report:tamper-accepted", &format!("{first} ({} cases)", t.accepted_different.len()), json!({"part":"reports"}));
     }
